@@ -7,10 +7,13 @@
 //
 // cases.out lines
 //   SYS id kind n ls rows nnz (i j bits)*nnz  v bits*rows      ls=0: A=M (n x n), b=v;  ls=1: A=M'M, b=M'v
+//       kinds 0-4,7 small (n <= 12), 5 large sparse banded, 6 least-squares form,
+//       8-10 dense n = 30..220 (<nmedium> systems; multi-row factor updates, see gen_dense_gram / gen_staged / gen_overshoot)
 //   X id solver tolbits                                         solver 0 LH(normaleq) 1 block 2 updown 3 block3 4 LH(least squares)
 // impl.out lines (one per cases line)
 //   sys
-//   ok bits*n | free=<n> constr=<n> iters=<n> walk=<n> boundary=<n> full=<n> warn=<0/1> retries=<n>
+//   ok bits*n | iters=<n> cap=<0/1> walk=<n> boundary=<n> full=<n> stuck=<n> constr=<n>
+//               rowadd=<calls> madd=<calls adding >= 2 rows> rowdel=<calls> mdel=<calls deleting >= 2 rows> maxrows=<n> refac=<n> retries=<n>
 //   hang | abort <status>
 #include <cholmod.h>
 #include <sys/wait.h>
